@@ -13,7 +13,7 @@ NAMES = ["My Spa", "Spa|with|bars", "caf\xe9 \xfc", "", "|", "1", "x" * 40,
 
 def run(ctx):
     ctx.rule = ("the REAL GeckoAsyncLocator.discover under the virtual-time loop against 0-5 scripted spas (names with '|', non-ASCII latin-1, leading / trailing blanks and control characters, case twins, 0-3 copies per reply, "
-                "latencies 0.01-6 s, replies to the first four broadcasts, losses), with and without identifier / address filters, with event-loop stalls of 13-310 ms; "
+                "latencies 0.01-6 s, replies to the first four broadcasts, losses), with and without identifier / address filters, with event-loop stalls of 13-310 ms, with a client handler for LOCATING_DISCOVERED_SPA that returns at once or stays suspended for 0.05-1.5 s; "
                 "the label stream (arrival / consumer pop / main-loop poll with its age, in real execution order) is replayed on Model/Discovery.v and the listed spas and "
                 "the age at which discover() left its loop are compared; endpoint closed and LOC tasks gone on return; non-trivial = script with duplicates, a filter or a stall")
     ctx.prove(timeout=1200)
@@ -46,7 +46,10 @@ def run(ctx):
             fid = (rng.choice(spas)["id"].decode() if spas and rng.random() < 0.8 else "SPA99:zz")
         # an early stall longer than one poll interval takes the polls off the 0.1 s grid (no float comparisons on a threshold)
         stalls = [(0.05, rng.choice([0.1137, 0.1291, 0.1733]))] + [(rng.choice([0.25, 0.6, 1.3, 2.1]), rng.choice([0.013, 0.057, 0.12, 0.31])) for _ in range(rng.choice([0, 1, 2, 3]))]
-        r = discovery.run_discovery(spas, filt_id=fid, filt_addr=faddr, stalls=stalls, seed=k)
+        hd = rng.choice([0.0, 0.0, 0.0, 0.0517, 0.633, 1.471])
+        if hd:
+            ctx.count("runs_with_suspending_discovered_handler")
+        r = discovery.run_discovery(spas, filt_id=fid, filt_addr=faddr, stalls=stalls, seed=k, handler_delay=hd)
         if r["skipped"]:
             skipped += 1          # an age within 3 us of a threshold: float comparison on the boundary, outcome not comparable
             continue
@@ -58,6 +61,8 @@ def run(ctx):
                 labels.append("Arrive (mkR %d %d %d)" % (iv(ids, l[1]), iv(names, l[2]), iv(addrs, l[3])))
             elif l[0] == "C":
                 labels.append("Consume")
+            elif l[0] == "H":
+                labels.append("HandlerDone")
             else:
                 labels.append("MainPoll %d" % l[1])
         want = "None" if fid is None else "(Some %d)" % iv(ids, fid.encode())
@@ -91,8 +96,10 @@ def run(ctx):
             # returns as soon as a specifically requested spa has answered
             if prob is None and (fid is not None or faddr is not None) and ids_listed:
                 first = min((d for s in spas if s["id"] in ids_listed for (bn, d, c_) in s["replies"] if c_ > 0 for d in [bn * 1.1 + d]), default=None)
-                if first is not None and r["duration"] > first + 0.1 * (1 + len(r["labels"]) // 3) + 0.45 + sum(dt for _, dt in stalls):
-                    prob = "requested spa answered after %.2f s but discovery returned only after %.2f s" % (first, r["duration"])
+                if first is not None and r["duration"] > first + 0.1 * (1 + len(r["labels"]) // 3) + 0.45 + sum(dt for _, dt in stalls) + hd * (1 + len(ids_listed)):
+                    prob = "requested spa answered after %.2f s but discovery returned only after %.2f s (the client's handler accounts for %.2f s per listed spa)" % (first, r["duration"], hd)
+        if prob is None and r["events"].count("LOCATING_DISCOVERED_SPA") != len(ids_listed):
+            prob = "announced spas (%d LOCATING_DISCOVERED_SPA events) and listed spas (%d) differ" % (r["events"].count("LOCATING_DISCOVERED_SPA"), len(ids_listed))
         if prob:
             ctx.fail("discovery:" + prob.split(" ")[0] + prob.split(" ")[1], prob, {"spas": meta[-1]["spas"], "filter": (fid, faddr), "stalls": stalls, "listed": meta[-1]["listed"], "duration": r["duration"]})
     ctx.extra["scripts_skipped_on_float_boundary"] = skipped
